@@ -331,7 +331,87 @@ def r_txn(E):
     return res
 
 
-def _zip_loop(fn):
+def _pair_segments(T):
+    """The pairing of replaced and replacing values that set / reset walk, as a list of segments
+    [(previous-side expr, new-side expr)] plus how the walk names the two sides — from either representation:
+      * two parallel attributes  self.P = A0 + A1 + …;  self.N = B0 + B1 + …           (roles: the attribute names)
+      * one attribute of records self.X = [Rec(p, n) for p, n in zip(A0 + A1 + …, B0 + B1 + …)]
+                                 self.X = [Rec(p, n) for p, n in chain(<(c[0], c[1]) for c in L>, zip(A1, B1), …)]
+        (also through a method that returns that list)                                  (roles: the record's fields)
+    None when neither is found."""
+    init = T.methods["__init__"]
+
+    def segs(e):
+        if isinstance(e, ast.BinOp) and isinstance(e.op, ast.Add):
+            return segs(e.left) + segs(e.right)
+        return [e]
+    prev = new = None
+    for n in ast.walk(init):
+        if isinstance(n, ast.Assign) and len(n.targets) == 1 and isinstance(n.targets[0], ast.Attribute):
+            if n.targets[0].attr == "all_previous_obj_linked_to_mod_obj":
+                prev = n
+            if n.targets[0].attr == "all_new_obj_linked_to_mod_obj":
+                new = n
+    if prev is not None and new is not None:
+        return dict(kind="lists", segments=list(zip(segs(prev.value), segs(new.value))),
+                    n_prev=len(segs(prev.value)), n_new=len(segs(new.value)), node=prev,
+                    prev_role="self.all_previous_obj_linked_to_mod_obj", new_role="self.all_new_obj_linked_to_mod_obj")
+    # records
+    for n in ast.walk(init):
+        if not (isinstance(n, ast.Assign) and len(n.targets) == 1 and isinstance(n.targets[0], ast.Attribute)
+                and norm(n.targets[0].value) == "self"):
+            continue
+        v = n.value
+        m = _self_method_call(v) if isinstance(v, ast.Call) else None
+        if m and m in T.methods:
+            rets = [r.value for r in ast.walk(T.methods[m]) if isinstance(r, ast.Return) and r.value is not None]
+            v = rets[0] if len(rets) == 1 else v
+        if not (isinstance(v, ast.ListComp) and len(v.generators) == 1 and not v.generators[0].ifs
+                and isinstance(v.elt, ast.Call) and isinstance(v.elt.func, ast.Name) and len(v.elt.args) == 2
+                and isinstance(v.generators[0].target, ast.Tuple) and len(v.generators[0].target.elts) == 2):
+            continue
+        a, b = [norm(x) for x in v.generators[0].target.elts]
+        if [norm(x) for x in v.elt.args] != [a, b]:
+            continue
+        # field names of the record, in constructor order
+        fields = None
+        for mod, (r_, tree, _s) in T.pm.modules.items():
+            for st in tree.body:
+                if isinstance(st, ast.ClassDef) and st.name == v.elt.func.id:
+                    fields = [x.target.id for x in st.body if isinstance(x, ast.AnnAssign) and isinstance(x.target, ast.Name)]
+                if isinstance(st, ast.Assign) and isinstance(st.targets[0], ast.Name) and st.targets[0].id == v.elt.func.id \
+                        and isinstance(st.value, ast.Call) and "namedtuple" in norm(st.value.func) and len(st.value.args) >= 2:
+                    spec = st.value.args[1]
+                    fields = [x.value for x in spec.elts] if isinstance(spec, (ast.List, ast.Tuple)) else \
+                        str(getattr(spec, "value", "")).replace(",", " ").split()
+        if not fields or len(fields) != 2:
+            continue
+        it = v.generators[0].iter
+        segments = None
+        if isinstance(it, ast.Call) and norm(it.func) == "zip" and len(it.args) == 2:
+            ps, ns = segs(it.args[0]), segs(it.args[1])
+            segments, n_prev, n_new = list(zip(ps, ns)), len(ps), len(ns)
+        elif isinstance(it, ast.Call) and norm(it.func) in ("chain", "itertools.chain"):
+            segments = []
+            for part in it.args:
+                if isinstance(part, ast.Call) and norm(part.func) == "zip" and len(part.args) == 2:
+                    segments.append((part.args[0], part.args[1]))
+                elif isinstance(part, (ast.GeneratorExp, ast.ListComp)) and isinstance(part.elt, ast.Tuple) \
+                        and len(part.elt.elts) == 2 and len(part.generators) == 1:
+                    g = part.generators[0]
+                    segments.append((ast.ListComp(elt=part.elt.elts[0], generators=[g]),
+                                     ast.ListComp(elt=part.elt.elts[1], generators=[g])))
+                else:
+                    segments = None
+                    break
+            n_prev = n_new = len(segments) if segments else 0
+        if segments:
+            return dict(kind="records", segments=segments, n_prev=n_prev, n_new=n_new, node=n, attr=n.targets[0].attr,
+                        prev_role=fields[0], new_role=fields[1])
+    return None
+
+
+def _zip_loop(fn, pairing=None):
     """set/reset methods: the zip loop that swaps the values, the conditions it runs under (as a formula over the path
     conditions: `if g: loop` and `if not g: return; loop` read the same) and the flag assignment under the same
     conditions"""
@@ -339,6 +419,11 @@ def _zip_loop(fn):
     from ..paths import path_formula, implies
     loop = next((n for n in ast.walk(fn) if isinstance(n, ast.For) and isinstance(n.iter, ast.Call)
                  and isinstance(n.iter.func, ast.Name) and n.iter.func.id == "zip"), None)
+    rec_loop = None
+    if loop is None and pairing is not None and pairing["kind"] == "records":
+        rec_loop = next((n for n in ast.walk(fn) if isinstance(n, ast.For) and isinstance(n.target, ast.Name)
+                         and norm(n.iter) == f"self.{pairing['attr']}"), None)
+        loop = rec_loop
     if loop is None:
         return None
     flags = [n for n in ast.walk(fn) if isinstance(n, ast.Assign) and isinstance(n.targets[0], ast.Attribute)
@@ -349,10 +434,24 @@ def _zip_loop(fn):
     g_loop, g_flag = path_formula(path_conditions(loop, fn), fn), path_formula(path_conditions(flag, fn), fn)
     if not (implies(g_loop, g_flag) and implies(g_flag, g_loop)):
         return None
-    vars_ = [e.id for e in loop.target.elts] if isinstance(loop.target, ast.Tuple) else None
-    zargs = [norm(expanded(a, fn)) for a in loop.iter.args]
     call = next((c for c in _calls(loop) if isinstance(c.func, ast.Attribute)
                  and c.func.attr == "replace_in_mod_obj_container_without_recomputation"), None)
+    if rec_loop is not None:
+        # for r in self.X: r.<f1>.replace(r.<f2>): the two sides are the record's fields
+        v = loop.target.id
+        if call is None or not call.args:
+            return None
+        recv, arg = call.func.value, call.args[0]
+        if not (isinstance(recv, ast.Attribute) and norm(recv.value) == v and isinstance(arg, ast.Attribute)
+                and norm(arg.value) == v):
+            return None
+        roles = [pairing["prev_role"], pairing["new_role"]]
+        if recv.attr not in roles or arg.attr not in roles:
+            return None
+        return dict(guard=g_loop, recv_list=recv.attr, arg_list=arg.attr, flag=norm(flag), flag_attr=norm(flag.targets[0]),
+                    zargs=sorted(roles))
+    vars_ = [e.id for e in loop.target.elts] if isinstance(loop.target, ast.Tuple) else None
+    zargs = [norm(expanded(a, fn)) for a in loop.iter.args]
     if call is None or vars_ is None:
         return None
     recv = call.func.value.id if isinstance(call.func.value, ast.Name) else None
@@ -370,7 +469,8 @@ def r_mirror(E):
                                  "argument exchanged, opposite guards, opposite flag")
     rel, a = pm.find_function(MU, "ModelingUpdate.set_updated_values")
     rel, b = pm.find_function(MU, "ModelingUpdate.reset_values")
-    sa, sb = _zip_loop(a), _zip_loop(b)
+    pairing = _pair_segments(TxnAnalysis(pm))
+    sa, sb = _zip_loop(a, pairing), _zip_loop(b, pairing)
     res.instances = 1
     if sa is None or sb is None:
         res.undecided.append("set_updated_values / reset_values no longer have the guarded zip-loop shape")
@@ -383,6 +483,10 @@ def r_mirror(E):
                      f"{sb['arg_list']}")
     rel0, init = TxnAnalysis(pm).rel, TxnAnalysis(pm).methods["__init__"]
     prev_list = None
+    if pairing is not None and pairing["kind"] == "records":
+        first = pairing["segments"][0][0]
+        if isinstance(first, ast.ListComp) and norm(first.elt).endswith("[0]"):
+            prev_list = pairing["prev_role"]
     for n in ast.walk(init):
         if isinstance(n, ast.Assign) and isinstance(n.targets[0], ast.Attribute) and norm(n.targets[0]) in sa["zargs"]:
             first = n.value
@@ -452,21 +556,13 @@ def r_zip(E):
     T = TxnAnalysis(pm)
     rel = T.rel
     init = T.methods["__init__"]
-    prev = new = None
-    for n in ast.walk(init):
-        if isinstance(n, ast.Assign) and len(n.targets) == 1 and isinstance(n.targets[0], ast.Attribute):
-            if n.targets[0].attr == "all_previous_obj_linked_to_mod_obj":
-                prev = n
-            if n.targets[0].attr == "all_new_obj_linked_to_mod_obj":
-                new = n
-    if prev is None or new is None:
+    pairing = _pair_segments(T)
+    if pairing is None:
         raise AnalysisError("all_previous_obj_linked_to_mod_obj / all_new_obj_linked_to_mod_obj vanished")
-
-    def segs(e):
-        if isinstance(e, ast.BinOp) and isinstance(e.op, ast.Add):
-            return segs(e.left) + segs(e.right)
-        return [e]
-    ps, ns = segs(prev.value), segs(new.value)
+    prev = new = pairing["node"]
+    ps, ns = [a for a, _ in pairing["segments"]], [b for _, b in pairing["segments"]]
+    if pairing["n_prev"] != pairing["n_new"]:
+        ps, ns = ps + [None] * (pairing["n_prev"] - len(ps)), ns + [None] * (pairing["n_new"] - len(ns))
     pairs, notes = _lockstep_pairs(T)
     # a list returned by a producer and stored under another name in the caller
     alias = {}
@@ -493,9 +589,9 @@ def r_zip(E):
         t = tgt[5:] if tgt.startswith("self.") else alias.get((m, tgt), tgt)
         lock.add((it, t))
     res.breakdown = {"lockstep_pairs": sorted(f"{a} ~ {b}" for a, b in lock), "irregular": notes}
-    if len(ps) != len(ns):
-        res.findings.append(Finding("R-ZIP", "segment count", f"all_previous… has {len(ps)} segments, all_new… has "
-                                    f"{len(ns)}: restore pairs the wrong objects", rel, prev.lineno,
+    if pairing["n_prev"] != pairing["n_new"]:
+        res.findings.append(Finding("R-ZIP", "segment count", f"all_previous… has {pairing['n_prev']} segments, all_new… has "
+                                    f"{pairing['n_new']}: restore pairs the wrong objects", rel, prev.lineno,
                                     "ModelingUpdate.__init__"))
     for i, (p, n) in enumerate(zip(ps, ns)):
         res.instances += 1
